@@ -484,7 +484,8 @@ def run(rep, repo, tier):
     # R1
     rf = find_reader(repo)
     try:
-        rt = T.ReaderTable(rf, [('', ''), ('(', ''), ('', ')')])
+        from .c13 import helper_resolver
+        rt = T.ReaderTable(rf, [('', ''), ('(', ''), ('', ')')], resolver=helper_resolver(repo, repo.rel('solver')))
         viol, stats = T.explore(T.reference_writer(), False, rt, check_writer=False)
         rep.extra['states'] = stats['product_states']
         rep.extra['transitions'] = stats['transitions']
@@ -514,6 +515,7 @@ def run(rep, repo, tier):
             rep.count('specialisations')
     check_cost_readers(rep, repo)
     check_derived(rep, repo)
+    check_read_values_kept(rep, repo)
     check_import_pure(rep, repo)
     from ..defined import check_defined
     check_defined(rep, repo, 'C10.R7', [repo.function('import_model', required=False)], 'instance reader')
@@ -987,3 +989,54 @@ def check_derived(rep, repo):
     order = calls_of(im.node)
     rep.check(all(x in order for x in need) and repo.actual_function('_import_from_file') in order, 'C10.R6', im.where, 'import_model reads the file and derives project, lecturer and rank lists', got=order,
               want=['_import_from_file'] + need, construct='import_model steps')
+
+
+FILE_ATTRS = {'proj_lower_quotas', 'proj_upper_quotas', 'proj_lecturers', 'lec_lower_quotas', 'lec_targets', 'lec_upper_quotas', 'pairs',
+              'num_students', 'num_projects', 'num_lecturers'}
+
+
+def check_read_values_kept(rep, repo, rule='C10.R6'):
+    """What the reader stored is what the solver sees: after _import_from_file nothing that import_model calls (derivation
+    of the grouped lists, validations, ...) writes into the quota vectors, the lecturer assignment, the pair table or the
+    counts.  Mutation summaries (E8) of every function import_model calls besides the reader itself."""
+    from ..effects import Effects
+    im = repo.function('import_model', repo.rel('solver', 'fileIO.py'))
+    reader = repo.actual_function('_import_from_file')
+    E = Effects(repo)
+    callees = []
+    for n in ast.walk(im.node):
+        if isinstance(n, ast.Call):
+            nm = n.func.attr if isinstance(n.func, ast.Attribute) else getattr(n.func, 'id', '')
+            if nm == reader:
+                continue
+            targets = [ms[nm] for ms in repo.classes.values() if nm in ms] if isinstance(n.func, ast.Attribute) else list(repo.funcs_by_name.get(nm, []))
+            callees += [t for t in targets if t not in callees]
+    bad = []
+    nev = 0
+    for g in callees:
+        try:
+            evs = E.analyse(g)
+        except Exception as u:
+            rep.inconclusive(rule, g.where, 'the effects of %s are inside the summarised fragment' % g.qualname, got=str(u)[:120])
+            return
+        for ev in evs:
+            nev += 1
+            names = [x for x in ev.prov[2] if x != '[]']
+            hit = (names[0] if names else ev.attr) if ev.prov[0] == 'path' and ev.prov[1] in ('self', 'param:model', 'model') or (ev.prov[0] == 'path' and ev.prov[1].startswith('param')) else None
+            if hit in FILE_ATTRS:
+                bad.append((g, ev, hit))
+    for stmt in im.node.body:
+        # ... nor does import_model itself, after the reader returned
+        for n in ast.walk(stmt):
+            if isinstance(n, ast.Attribute) and n.attr in FILE_ATTRS and isinstance(n.ctx, ast.Store):
+                bad.append((im, None, n.attr))
+            if isinstance(n, ast.Subscript) and isinstance(n.ctx, ast.Store) and isinstance(n.value, ast.Attribute) and n.value.attr in FILE_ATTRS:
+                bad.append((im, None, n.value.attr))
+    rep.count('post_read_mutation_events', nev)
+    if bad:
+        g, ev, hit = bad[0]
+        rep.fail(rule, g.where, 'the values read from the file are not modified before the solver sees them', got='%s writes model.%s%s' % (g.qualname, hit, (' (%s at %s)' % (ev.kind, ev.loc)) if ev else ''),
+                 want='only the reader fills ' + ', '.join(sorted(FILE_ATTRS)), construct='%s modifies %s after the file was read' % (g.qualname, hit), loc=ev.loc if ev else None)
+    else:
+        rep.ok(rule, im.where, 'none of the %d mutation events of the %d functions import_model calls after the reader touches the quota vectors, lecturer assignment, pair table or counts' % (nev, len(callees)),
+               got='no write')
